@@ -91,6 +91,10 @@ func VX_C15_Constructors(args []int) {
 	if conn.nWrites() == 2 {
 		m1, e1 := vxParse(conn.writes[0])
 		m2, e2 := vxParse(conn.writes[1])
+		if e1 == nil && e2 == nil && m1.Seq() == 6 && m2.Seq() == 5 {
+			// the two frames are handled concurrently: replies may be written in either order
+			m1, m2 = m2, m1
+		}
 		vxAssert(e1 == nil && m1.Status(true).Code() == CodeNotFound && m1.Status(true).Msg() == "Not Found", "unknown route still answered 404 Not Found")
 		vxAssert(e2 == nil && m2.Status(true).Code() == CodeBadMessage && m2.Status(true).Msg() == "Bad Message", "a CALL without a service method still answered 400 Bad Message")
 	}
